@@ -301,6 +301,90 @@ def run_sequence(backend):
     return n, viols
 
 
+TYPE_WINDOWS = [(10.0, 300.0), (50.0, -1.0), (-1.0, 41000.0)]
+
+
+def run_types(fmt):
+    """every gas-phase reaction TYPE of every format with a declared window (databases give one to cosmic-ray and
+    photo-reactions too: RATE12's CP lines carry 10:41000): the compiled coefficient is non-zero inside and exactly
+    0.0 outside.  Laws are not constant here, so only zero / non-zero is judged."""
+    import shutil
+    import tempfile
+    from pathlib import Path
+
+    from ..harness.render import render, reset_globals, scratch, quiet
+    from ..harness import ratesrun as RR
+
+    reset_globals()
+    from naunet.network import Network
+    from naunet.reactions.reaction import Reaction
+    from naunet.reactiontype import ReactionType
+
+    types = [t for t in c05.TYPES if t[0] == fmt and t[2] != "zero"]
+    tmp = Path(tempfile.mkdtemp(dir=scratch()))
+    kept = []
+    try:
+        kw = {}
+        if fmt == "api":
+            reacs = []
+            for t in types:
+                _, code, law, marker, reac, prod, tag = t
+                for lo, hi in TYPE_WINDOWS:
+                    reacs.append(Reaction(list(reac) + ([marker] if marker else []), list(prod), lo, hi, 2.0, 1.0, 1.0, ReactionType(code), len(reacs) + 1))
+                    kept.append((t, lo, hi))
+            with quiet():
+                net = Network(reacs)
+        else:
+            lines = []
+            for t in types:
+                _, code, law, marker, reac, prod, tag = t
+                for lo, hi in TYPE_WINDOWS:
+                    if fmt in ("kida", "leeds"):
+                        lo, hi = int(lo), int(hi)
+                    ln = c05.encode(fmt, code, marker, reac, prod, 2.0, 1.0, 1.0, len(lines) + 1, lo, hi)
+                    if ln is None:
+                        continue
+                    lines.append(ln)
+                    kept.append((t, float(lo), float(hi)))
+            f = tmp / f"types.{fmt}"
+            f.write_text("\n".join(lines) + "\n")
+            if fmt == "leeds":
+                kw["species_kwargs"] = {"surface_prefix": "G"}
+            if fmt in ("leeds", "uclchem"):
+                kw["required_species"] = ["CO", "H2"]
+            with quiet():
+                net = Network(filelist=str(f), fileformats=fmt, **kw)
+            if len(net.reaction_list) != len(lines):
+                return 0, [(f"C06:pack-size:{fmt}", f"{len(lines)} data lines gave {len(net.reaction_list)} reactions", {"fmt": fmt, "types": True})]
+        files = render(net, "dense", RR.RATE_TEMPLATES_CVODE)
+        temps = sorted(set().union(*[temps_for([(lo, hi)]) for lo, hi in TYPE_WINDOWS]) - {1e-300, 1e300})
+        fields = [f_ for f_, _ in RR.data_fields(files)]
+        base = {"nH": 1e4, "zeta": 1.3e-17, "Av": 1.0, "omega": 0.5, "G0": 1.0, "Tdust": 10.0, "zeta_cr": 1.3e-17, "zeta_xr": 0.0, "rG": 1e-5, "gdens": 1e-8, "uvcreff": 1e-3, "crdeseff": 1e5, "h2deseff": 1e-2}
+        grid = [dict({k: v for k, v in base.items() if k in fields}, Tgas=T) for T in temps]
+        for g in grid:
+            for fld in fields:
+                g.setdefault(fld, 1.0)
+        res = RR.build_and_run(files, grid)
+        if res.get("compile_error"):
+            first = next((ln for ln in res["compile_error"].splitlines() if "error" in ln), "")
+            return len(kept), [(f"C06:compile-error:{fmt}", first[:300], {"fmt": fmt, "types": True})]
+        if res.get("run_error"):
+            raise HarnessError(res["run_error"])
+        viols = []
+        n = 0
+        for i, (t, lo, hi) in enumerate(kept):
+            for ti, T in enumerate(temps):
+                got = res["k"][ti][i]
+                n += 1
+                on = active(lo, hi, T)
+                if (on and not (got != 0.0 and got == got)) or (not on and not (got == 0.0)):
+                    viols.append((f"C06:type-window:{fmt}:{t[1]}:{'inside' if on else 'outside'}", f"{fmt} type {t[1]} ({t[2]}) with window [{lo},{hi}) at T={T!r}: k={got!r}, expected {'a non-zero coefficient' if on else 'exactly 0.0'}", {"fmt": fmt, "types": True}))
+                    break
+        return n, viols
+    finally:
+        shutil.rmtree(tmp, ignore_errors=True)
+
+
 def run(ctx):
     cases = build_cases(ctx.tier)
     total = nval = 0
@@ -312,7 +396,13 @@ def run(ctx):
     for n, viols in ctx.pmap(run_sequence, ["dense", "sparse", "rosenbrock4"]):
         nval += n
         ctx.absorb(viols)
+    ntypes = 0
+    for n, viols in ctx.pmap(run_types, ["kida", "umist", "leeds", "uclchem", "naunet", "api"]):
+        ntypes += n
+        nval += n
+        ctx.absorb(viols)
     ctx.assumptions += [
+        "type sub-check: every gas-phase (format, type) of C05's table with windows [10,300), [50,inf), (-inf,41000): compiled coefficient non-zero inside, exactly 0.0 outside (coefficients alpha=2, beta=gamma=1)",
         "history sub-check: compiled Fex and Jac of all three CPU back-ends are called 12 times in one process along a temperature walk that enters and leaves adjacent windows; every call must obey the window predicate",
         "every probe reaction has the constant law k=2.0; active <=> compiled k == 2.0, inactive <=> compiled k is +0.0 (k pre-set to the template's {0.0} initialiser, whose presence in Fex/Jac is checked by C03)",
         "window predicate of the property: (Tmin<=0 or T>=Tmin) and (Tmax<=0 or T<Tmax); KROME comparison operators (.LE./.GE./</>) are read as plain bounds",
@@ -329,6 +419,9 @@ def run(ctx):
 
 
 def replay(ctx, case):
+    if case.get("types"):
+        ctx.absorb(run_types(case["fmt"])[1])
+        return
     if case.get("sequence"):
         n, v = run_sequence(case["backend"])
         ctx.absorb(v)
